@@ -8,6 +8,7 @@ CONSTANTS
   MaxReq = 1000000
   MaxBatch = 2
   Hist = FALSE
+  Deliveries = {"single", "pipelined", "fragmented"}
   SplitReg = FALSE
 VIEW ViewLts
 INVARIANTS TypeOK Partition
